@@ -451,6 +451,11 @@ func (w *Writer) ReadFrom(src io.Reader) (n int64, err error) {
 			nr++
 		}
 		if nr == maxEmptyReads {
+			if n > 0 {
+				// As below: the bytes accepted so far belong to the message
+				// that Flush() has to finish.
+				w.dirty = true
+			}
 			return n, io.ErrNoProgress
 		}
 
